@@ -75,6 +75,8 @@ func main() {
 		} else {
 			debugFn(eng, os.Args[2])
 		}
+	case "names":
+		os.Exit(runNames(repo))
 	case "replay":
 		os.Exit(runReplay(repo, os.Args[2]))
 	default:
